@@ -317,7 +317,7 @@ func (x *Exec) symValue(st *State, t types.Type, name string) Value {
 }
 
 func (x *Exec) newAbsObj(st *State, t types.Type, name string, dim int) *AbsObj {
-	o := &AbsObj{name: sanitize(name), typ: t, dim: dim}
+	o := &AbsObj{name: sanitize(name), typ: t, dim: dim, stamp: cellCtr}
 	// bounding box: find the Box2/Box3 type via the interface method
 	it := t.Underlying().(*types.Interface)
 	for i := 0; i < it.NumMethods(); i++ {
@@ -972,6 +972,36 @@ func theoryAxioms(apps []appRec) []*Term {
 				continue
 			}
 			out = append(out, mkImplies(mkAnd(mkLe(mkInt(0), b.args[0]), mkEq(a.args[0], mkAdd(b.args[0], mkInt(1)))), mkEq(a.res, mkMul(mkInt(2), b.res))))
+		}
+	}
+	// pow2 against log2: 2^n >= y  <=>  n >= log2(y)   (n >= 0, y > 0), and log2 is monotone
+	var log2s []appRec
+	for _, a := range apps {
+		if a.fn == "log2" {
+			log2s = append(log2s, a)
+		}
+	}
+	for _, pw := range pows {
+		for _, lg := range log2s {
+			y := lg.args[0]
+			pre := mkAnd(mkLe(mkInt(0), pw.args[0]), mkLt(mkRealInt(0), y))
+			out = append(out, mkImplies(pre, mkEq(mkLe(lg.res, coerce(pw.args[0], SReal)), mkLe(y, coerce(pw.res, SReal)))))
+		}
+	}
+	for _, lg := range log2s {
+		// anchors: log2(1) = 0, log2(2) = 1 (with monotonicity)
+		y := lg.args[0]
+		pos := mkLt(mkRealInt(0), y)
+		out = append(out, mkImplies(pos, mkAnd(
+			mkEq(mkLe(mkRealInt(0), lg.res), mkLe(mkRealInt(1), y)),
+			mkEq(mkLt(mkRealInt(0), lg.res), mkLt(mkRealInt(1), y)),
+			mkEq(mkLe(mkRealInt(1), lg.res), mkLe(mkRealInt(2), y)),
+			mkEq(mkLt(mkRealInt(1), lg.res), mkLt(mkRealInt(2), y)))))
+	}
+	for i := 0; i < len(log2s); i++ {
+		for j := i + 1; j < len(log2s); j++ {
+			pos := mkAnd(mkLt(mkRealInt(0), log2s[i].args[0]), mkLt(mkRealInt(0), log2s[j].args[0]))
+			out = append(out, mkImplies(pos, mkEq(mkLt(log2s[i].args[0], log2s[j].args[0]), mkLt(log2s[i].res, log2s[j].res))))
 		}
 	}
 	zero := mkRealInt(0)
